@@ -5,8 +5,10 @@ open RTV.Drv
 
 def dispatch (line : String) : String :=
   match line.splitOn "\t" with
-  | "tok" :: args => hTok args
-  | "match" :: args => hMatch args
+  | op :: args =>
+    (dispatchMatch op args
+      -- <|> dispatchOther op args   (one alternative per layer)
+      ).getD "bad-op"
   | _ => "bad-op"
 
 partial def loop (h : IO.FS.Stream) (out : IO.FS.Stream) : IO Unit := do
